@@ -25,6 +25,7 @@
 #include <cstdint>
 #include <new>
 #include <pthread.h>
+#include <sys/time.h>
 #include <span>
 #include <unistd.h>
 #include <vector>
@@ -153,18 +154,26 @@ void on_trap(int sig)
     if (g_armed) { siglongjmp(g_jb, sig); }
     on_fatal(sig);
 }
+// watchdog on the CPU time of this process (not wall-clock: a loaded machine must not look like a hanging call)
+inline void cpu_timer(long ms)
+{
+    struct itimerval tv {};
+    tv.it_value.tv_sec  = ms / 1000;
+    tv.it_value.tv_usec = (ms % 1000) * 1000;
+    setitimer(ITIMER_VIRTUAL, &tv, nullptr);
+}
 template <typename F>
 bool guarded(F&& f)
 {
     g_armed = 1;
-    alarm(5);
+    cpu_timer(2000);
     if (sigsetjmp(g_jb, 0) == 0) {
         f();
-        alarm(0);
+        cpu_timer(0);
         g_armed = 0;
         return true;
     }
-    alarm(0);
+    cpu_timer(0);
     g_armed = 0;
     ++g_traps;
     return false;
@@ -922,12 +931,12 @@ void* work(void* p)
     sigaltstack(&ss, nullptr);
     sigset_t alrm;
     sigemptyset(&alrm);
-    sigaddset(&alrm, SIGALRM);
+    sigaddset(&alrm, SIGVTALRM);
     pthread_sigmask(SIG_UNBLOCK, &alrm, nullptr);
     struct sigaction sa {};
     sa.sa_handler = on_trap;
     sa.sa_flags   = SA_NODEFER | SA_ONSTACK;
-    for (int s : {SIGFPE, SIGSEGV, SIGBUS, SIGALRM}) { sigaction(s, &sa, nullptr); }
+    for (int s : {SIGFPE, SIGSEGV, SIGBUS, SIGVTALRM}) { sigaction(s, &sa, nullptr); }
     for (int s : {SIGABRT, SIGILL}) { std::signal(s, on_fatal); }
 
     auto& a = *static_cast<Args*>(p);
@@ -960,10 +969,10 @@ void* work(void* p)
 int main(int argc, char** argv)
 {
     Args a{argc, argv, 2};
-    // SIGALRM (watchdog) must reach the worker thread, whose jump buffer the handler uses: block it here
+    // SIGVTALRM (watchdog) must reach the worker thread, whose jump buffer the handler uses: block it here
     sigset_t alrm;
     sigemptyset(&alrm);
-    sigaddset(&alrm, SIGALRM);
+    sigaddset(&alrm, SIGVTALRM);
     pthread_sigmask(SIG_BLOCK, &alrm, nullptr);
     pthread_attr_t at;
     pthread_attr_init(&at);
